@@ -54,7 +54,12 @@ class _KernelProxy:
         if self._jitter is not None and self._jitter.random() < 0.5:
             time.sleep(self._jitter.random() * 0.003)
         self._log.append(('call', threading.current_thread().name, data.tolist(), len(files)))
-        r = self._real.learn_inplace_binary_to_binary(files, alpha, b1, b2, lam, weights, data)
+        try:
+            r = self._real.learn_inplace_binary_to_binary(files, alpha, b1, b2, lam, weights, data)
+        except BaseException:
+            # the kernel call raised (e.g. TypeError for an unusable hyper-parameter): the worker records it and ends
+            self._log.append(('fail', threading.current_thread().name))
+            raise
         self._log.append(('finish', threading.current_thread().name))
         return r
 
@@ -63,7 +68,9 @@ class _KernelProxy:
 
 
 def op_trace_threading(t):
-    """run ndl.ndl(method='threading') with the logging queue; return result + history"""
+    """run ndl.ndl(method='threading') with the logging queue; return result + history.
+    With t['fault_run'] the call is the one impl_fault.op_fault_run makes for the task (learner ndl_threading,
+    possibly under an injected fault): the history then may contain ['fail', thread] (a kernel call that raised)"""
     log, order = [], []
     _LoggingQueue.log, _LoggingQueue.order = log, order
     _LoggingQueue.jitter = random.Random(t.get('jitter_seed', 0))
@@ -71,8 +78,12 @@ def op_trace_threading(t):
     ndl.Queue = _LoggingQueue
     ndl.ndl_parallel = _KernelProxy(real_k, log, _LoggingQueue.jitter)
     try:
-        t2 = dict(t, op='learn', learner='ndl', method='threading')
-        res = impl.op_learn(t2)
+        if t.get('fault_run'):
+            import impl_fault
+            res = impl_fault.op_fault_run(dict(t, op='fault_run', learner='ndl_threading'))
+        else:
+            t2 = dict(t, op='learn', learner='ndl', method='threading')
+            res = impl.op_learn(t2)
     finally:
         ndl.Queue, ndl.ndl_parallel = real_q, real_k
     tids = {}
@@ -85,6 +96,8 @@ def op_trace_threading(t):
             trace.append(['exit', tid])
         elif ev[0] == 'finish':
             trace.append(['finish', tid])
+        elif ev[0] == 'fail':
+            trace.append(['fail', tid])
         elif ev[0] == 'call':
             calls.append({'thread': tid, 'rows': ev[2], 'n_files': ev[3]})
     res['trace'] = trace
